@@ -36,10 +36,12 @@ class Family:
             self.cur.ns.add_alias(self.lib.ns, sym.symbol("o"))
         if nsrec["refer"]:
             self.cur.ns.add_refer(sym.symbol("ov"), runtime.Var.find(sym.symbol("ov", ns=self.lib.name)))
+        if nsrec.get("rename"):
+            self.cur.ns.add_refer(sym.symbol("rfn"), runtime.Var.find(sym.symbol("ofn", ns=self.lib.name)))
         lib2 = boot.Scratch(name=base + ".lib2", **quiet)
         lib2.eval("(def ov 921) (def ofn 922) (def nope 923)")
         self.foreign = boot.Scratch(name=base + ".foreign", **quiet)
-        self.foreign.eval("(def lv 910) (def lfn 911) (def first 912) (def map 913) (def inc 914) (def ov 915)")
+        self.foreign.eval("(def lv 910) (def lfn 911) (def first 912) (def map 913) (def inc 914) (def ov 915) (def rfn 916)")
         self.foreign.ns.add_alias(lib2.ns, sym.symbol("o"))
         self.q = {"CUR": self.cur.name, "LIB": self.lib.name, "CORE": CORE}
         self.unq = {v: k for k, v in self.q.items()}
@@ -49,7 +51,7 @@ class Family:
 
 
 def family(nsrec):
-    key = (nsrec["shadow"], nsrec["alias"], nsrec["refer"])
+    key = (nsrec["shadow"], nsrec["alias"], nsrec["refer"], bool(nsrec.get("rename")))
     if key not in _fam:
         _fam[key] = Family(nsrec)
     return _fam[key]
@@ -506,7 +508,7 @@ def run_record(rec, exprs):
         except Exception as ex:  # noqa
             disc.append(("SyntaxQuote!Resolve(hygiene)", case, "evaluates", type(ex).__name__ + ": " + str(ex)[:200],
                          "syntaxquote:hygiene:expansion-does-not-evaluate:" + type(ex).__name__))
-    nontriv = t["t"] == "coll" or rec["ns"] != {"shadow": False, "alias": False, "refer": False}
+    nontriv = t["t"] == "coll" or any(rec["ns"].values())
     return n, nontriv, disc, unrec
 
 
